@@ -90,7 +90,9 @@ func genFifoProgram(rng *rand.Rand, thorough bool) *fifoProgram {
 	}
 	p.Cancels = rng.Intn(6) == 0
 	p.PCT = rng.Intn(2) == 0
-	if p.N >= 2 && rng.Intn(2) == 0 {
+	// (programs that cancel contexts make gorums reset streams, which can fail a synchronous call's request to an ungated
+	// server; with gated servers such a call could then only finish when the gate opens, which the blocked program never reaches)
+	if p.N >= 2 && rng.Intn(2) == 0 && !p.Cancels {
 		// gate a strict minority-or-more of the servers, but keep at least one free
 		k := 1 + rng.Intn(p.N-1)
 		p.Gated = rng.Perm(p.N)[:k]
@@ -178,7 +180,7 @@ func RunFifo(e *Env) {
 		"distinct = program shape hash; non-trivial = >= 2 servers or >= 2 goroutines"
 	R.Assume("handler entry is recorded under the server's log mutex before the handler releases the connection, so log order = start order per connection")
 	rng := e.Rand(3)
-	nprog := e.Pick(260, 5000)
+	nprog := e.Pick(400, 25000)
 	var progs []*fifoProgram
 	for i := 0; i < nprog; i++ {
 		progs = append(progs, genFifoProgram(rng, e.Thorough()))
